@@ -88,12 +88,27 @@ def verify_block(subject_kind):
         st.ghost['crypto_called'] = z3.BoolVal(False)
         st.ghost['delegated_to'] = z3.IntVal(0)
 
+        # contract of PubKeyV4.verify: True / False from the algorithm's verifier, or the NotImplemented sentinel when the key material has
+        # no signature scheme (ECDH, ElGamal, opaque material) - a sentinel that is truthy and must never be taken for a verdict
+        no_scheme = z3.Bool('the_key_material_has_no_signature_scheme')
+
+        ok2 = z3.Bool('crypto_ok_at_the_second_verification')
+
         def keyverify(ex, st, o, a):
             st.ghost['crypto_called'] = z3.BoolVal(True)
             st.ghost['crypto_args'] = a
-            return [(st, E.VBool(ok))]
+            st.ghost['crypto_calls'] = st.ghost.get('crypto_calls', 0) + 1
+            if st.ghost.get('epoch'):
+                return [(st, E.VBool(ok2))]
+            s2 = st.clone()
+            st.pc.append(z3.Not(no_scheme))
+            s2.pc.append(no_scheme)
+            s2.ghost['sentinel'] = True
+            return [(st, E.VBool(ok)), (s2, E.VBuiltin('NotImplemented'))]
         r.hook('pgpy.packet.packets.PubKeyV4', 'verify', scn.method_hook(keyverify))
         r.set('key', '_key', E.VObj('pgpy.packet.packets.PubKeyV4', 'keypkt'))
+        r.set('sig', '_signature', E.VObj('pgpy.packet.packets.SignatureV4', 'sigpkt'))
+        r.set('sigpkt', 'signature', E.VObj('pgpy.packet.fields.RSASignature', 'sigfield'))
         HD = z3.Const('HASHDATA', E.BYTES)
 
         def hashdata(ex, st, o, a):
@@ -128,10 +143,14 @@ def verify_block(subject_kind):
         for s, v in outs:
             kind = scn.exit_kind(v)
             mine = z3.Or(S == K0, S == K1, S == K2)
+            if isinstance(v, E.Raise) and v.exc.split(':')[0] == 'NotImplementedError':
+                r.oblige(s, 'NotImplementedError-only-when-the-key-has-no-signature-scheme/p', z3.And(z3.BoolVal(bool(s.ghost.get('sentinel'))), no_scheme), v.where)
+                continue
             if isinstance(v, E.Raise):
-                # the only allowed error here: the signature names neither this key nor one of its subkeys
+                # the only other allowed error here: the signature names neither this key nor one of its subkeys
                 r.oblige(s, 'raises-only-for-foreign-issuer[%s]/p' % kind, z3.And(z3.BoolVal(v.exc.split(':')[0] == 'PGPError'), z3.Not(mine)), v.where)
                 continue
+            r.oblige(s, 'the-no-scheme-sentinel-is-never-taken-for-a-verdict/p', z3.BoolVal(not s.ghost.get('sentinel')))
             entries = s.ghost.get('entries', ())
             deleg = s.ghost['delegated_to']
             is_sub = z3.And(S != K0, z3.Or(S == K1, S == K2))
@@ -167,6 +186,21 @@ def verify_block(subject_kind):
                 ca = s.ghost['crypto_args']
                 r.oblige(s, 'crypto-checks-hashdata-of-this-subject/p',
                          z3.BoolVal(isinstance(ca[0], E.VBytes) and ca[0].z.eq(HD) and s.ghost.get('hashdata_subject') is subj))
+            if s.ghost.get('crypto_calls', 0) == 1 and not s.ghost.get('second_done') and subject_kind == 'uid':
+                # no hidden state: the same key, signature and subject OBJECTS verified again (the signature object may have been re-read,
+                # the subject changed in place): the crypto check is consulted again and decides again
+                s3 = s.clone()
+                s3.ghost['epoch'] = 1
+                s3.ghost['entries'] = ()
+                nsec = 0
+                for s4, v4 in r.ex.call_func(E.VFunc(r.node, None, cls=r.dcls, self_val=key, mod=r.mod), [subj, sig], {}, s3, {'mod': r.mod}):
+                    if isinstance(v4, E.Raise):
+                        r.oblige(s4, 'second-verification:safety(%s)/p' % v4.exc.split(':')[0], z3.BoolVal(False), v4.where)
+                        continue
+                    e4 = s4.ghost.get('entries', ())
+                    okk = len(e4) == 1 and s4.ghost.get('crypto_calls', 0) == 2
+                    r.oblige(s4, 'second-verification-of-the-same-objects:the-crypto-check-is-consulted-again-and-decides/p',
+                             z3.And(z3.BoolVal(okk), ex_int(e4[0][3]) == z3.If(ok2, 0, 1) if okk else z3.BoolVal(False)))
         # number the obligations per path so that names are stable and unique
         named = []
         for i, (n, h, g, l) in enumerate(r.obls):
